@@ -144,6 +144,24 @@ fn build(p: &Program, order: &[usize]) -> (Library, Vec<Ptr<Instance>>) {
             insts[i].write().unwrap().loc = Place::Rel(RelativePlace { to: Placeable::Instance(insts[*to].clone()), side: *side, align: Align::Side(*align), sep: separation });
         }
     }
+    // another cell of the same library, placed before `parent`, whose instances carry the SAME names but other cells, sizes and relations
+    // (instance names are only unique within a cell: nothing learnt while placing this one may leak into the next)
+    if p.specs.len() >= 2 {
+        let dcells: Vec<Ptr<Cell>> = p.sizes.iter().enumerate().map(|(i, s)| lib.cells.add(Layout::new(format!("dunit{}", i), 0, Outline::rect(s.0 as isize + 7, s.1 as isize + 3).unwrap()))).collect();
+        let dinsts: Vec<Ptr<Instance>> = p
+            .specs
+            .iter()
+            .map(|s| Ptr::new(Instance { inst_name: s.name.clone(), cell: dcells[s.cell].clone(), loc: Place::Abs(Xy::new(PrimPitches::x(-500), PrimPitches::y(900))), reflect_horiz: !s.rh, reflect_vert: s.rv }))
+            .collect();
+        for i in 1..dinsts.len() {
+            dinsts[i].write().unwrap().loc = Place::Rel(RelativePlace { to: Placeable::Instance(dinsts[i - 1].clone()), side: Side::Right, align: Align::Side(Side::Bottom), sep: Separation::new(None, None, None) });
+        }
+        let mut other = Layout::new("other_parent", 0, Outline::rect(10_000, 10_000).unwrap());
+        for d in dinsts.iter().rev() {
+            other.instances.push(d.clone());
+        }
+        lib.cells.add(other);
+    }
     let mut parent = Layout::new("parent", 0, Outline::rect(10_000, 10_000).unwrap());
     for &i in order {
         parent.instances.push(insts[i].clone());
@@ -332,41 +350,51 @@ impl Prop for C09 {
                 let size = (cx.rng.range(1, 30) as isize, cx.rng.range(1, 30) as isize);
                 let mut lib = Library::new("alib");
                 let unit = lib.cells.add(Layout::new("unit", 0, stepped_outline(cx.n as usize, size.0, size.1)));
-                let count = 1 + cx.rng.usize(6);
-                let pitch = (cx.rng.range(-40, 40) as isize, cx.rng.range(-40, 40) as isize);
+                // 1..4 levels of nesting, innermost first: (count, pitch)
+                let depth = 1 + cx.rng.usize(4);
+                let levels: Vec<(usize, (isize, isize))> = (0..depth)
+                    .map(|d| {
+                        let span = 40 * 5isize.pow(d as u32);
+                        (1 + cx.rng.usize(if d == 0 { 6 } else { 3 }), (cx.rng.range(-(span as i64), span as i64) as isize, cx.rng.range(-(span as i64), span as i64) as isize))
+                    })
+                    .collect();
                 let sep = |p: (isize, isize)| Separation::new(if p.0 != 0 { Some(SepBy::UnitSpeced(UnitSpeced::PrimPitches(PrimPitches::x(p.0)))) } else { None }, if p.1 != 0 { Some(SepBy::UnitSpeced(UnitSpeced::PrimPitches(PrimPitches::y(p.1)))) } else { None }, None);
-                let inner = Ptr::new(Array { name: "inner".into(), unit: Arrayable::Instance(unit.clone()), count, sep: sep(pitch) });
-                let nested = cx.rng.bool();
-                let (ocount, opitch) = (1 + cx.rng.usize(4), (cx.rng.range(-200, 200) as isize, cx.rng.range(-200, 200) as isize));
-                let top = if nested { Ptr::new(Array { name: "outer".into(), unit: Arrayable::Array(inner.clone()), count: ocount, sep: sep(opitch) }) } else { inner.clone() };
+                let mut top = Ptr::new(Array { name: "level0".into(), unit: Arrayable::Instance(unit.clone()), count: levels[0].0, sep: sep(levels[0].1) });
+                for (d, (c, p)) in levels.iter().enumerate().skip(1) {
+                    top = Ptr::new(Array { name: format!("level{}", d), unit: Arrayable::Array(top.clone()), count: *c, sep: sep(*p) });
+                }
+                let nested = depth > 1;
+                let (count, pitch) = levels[0];
+                let (ocount, opitch) = if nested { levels[1] } else { (1, (0, 0)) };
                 let (rh, rv) = (cx.rng.bool(), cx.rng.bool());
                 let loc = (cx.rng.range(-500, 500) as isize, cx.rng.range(-500, 500) as isize);
                 let ai = Ptr::new(ArrayInstance { name: "arr".into(), array: top, loc: Place::Abs(Xy::new(PrimPitches::x(loc.0), PrimPitches::y(loc.1))), reflect_vert: rv, reflect_horiz: rh });
                 let mut parent = Layout::new("parent", 0, Outline::rect(10_000, 10_000).unwrap());
                 parent.places.push(Placeable::Array(ai));
                 lib.cells.add(parent);
-                cx.nontrivial(crate::rt::prng::strhash(&format!("{:?}{:?}{}{}{:?}{:?}{}{}{:?}", size, pitch, count, nested, opitch, loc, rh, rv, ocount)));
-                // reference expansion
+                cx.nontrivial(crate::rt::prng::strhash(&format!("{:?}{:?}{:?}{}{}", size, levels, loc, rh, rv)));
+                cx.count(&format!("array_nesting_depth_{}", depth));
+                // reference expansion: every index tuple, offsets summed over the levels, then the instance's reflection and location
                 let mut want: Vec<(isize, isize, bool, bool)> = Vec::new();
-                let outer_n = if nested { ocount } else { 1 };
-                for j in 0..outer_n {
-                    for i in 0..count {
-                        let (mut x, mut y) = (i as isize * pitch.0, i as isize * pitch.1);
-                        if nested {
-                            x += j as isize * opitch.0;
-                            y += j as isize * opitch.1;
-                        }
-                        let (mut crh, mut crv) = (false, false);
-                        if rh {
-                            x = -x;
-                            crh = !crh;
-                        }
-                        if rv {
-                            y = -y;
-                            crv = !crv;
-                        }
-                        want.push((x + loc.0, y + loc.1, crh, crv));
+                let total: usize = levels.iter().map(|l| l.0).product();
+                for flat in 0..total {
+                    let (mut rem, mut x, mut y) = (flat, 0isize, 0isize);
+                    for (c, p) in &levels {
+                        let i = (rem % c) as isize;
+                        rem /= c;
+                        x += i * p.0;
+                        y += i * p.1;
                     }
+                    let (mut crh, mut crv) = (false, false);
+                    if rh {
+                        x = -x;
+                        crh = !crh;
+                    }
+                    if rv {
+                        y = -y;
+                        crv = !crv;
+                    }
+                    want.push((x + loc.0, y + loc.1, crh, crv));
                 }
                 want.sort();
                 match guard(|| Placer::place(lib, empty_stack())) {
